@@ -121,7 +121,7 @@ class ClassWorld:
                     ('ecblock', 1.2),
                     ('watchnew', 1), ('cparam', 2.5), ('poison', 1.5)],
             'C14': [('new', 3), ('newk', 2), ('kset', 5), ('kupdate', 2), ('cset', 3), ('rset', 2), ('ec_open', 3), ('ec_close', 2.5), ('ec_close_first', 1), ('ec_raise', 1.5),
-                    ('touch', 1.5), ('iset', 2), ('nameset', 1), ('kref', 1.5), ('srcset', 1.5), ('newkref', 1), ('srcset_fail', 1), ('srcset_rebind', 1), ('cname', 1)],
+                    ('touch', 1.5), ('iset', 2), ('nameset', 1), ('kref', 1.5), ('srcset', 1.5), ('newkref', 1), ('srcset_fail', 1), ('srcset_rebind', 1), ('cname', 1), ('ec_flagwatch', 1)],
         }[prop]
         depth = 0
         for _ in range(n_ops):
@@ -934,6 +934,29 @@ class _Run:
             if not inside:
                 self.viol('C14.name_constant', f"I{i}.name was assigned after construction, outside edit_constant")
             self.im[i]['name'] = self.insts[i].name
+        elif k == 'ec_flagwatch' and has_inst:
+            # a watcher of the `constant` attribute of one Parameter fails while edit_constant locks the object again: the other
+            # flags are restored all the same
+            if any(ii == i for _, ii in self.ec) or i in self.fuzzy:
+                return
+            o = self.insts[i]
+            fired = []
+
+            def failing(*events):
+                if events[0].new is True and not fired:
+                    fired.append(1)
+                    raise RuntimeError('callback failed')
+            h = o.param.watch(failing, ['name'], what='constant')
+            try:
+                with param.parameterized.edit_constant(o):
+                    pass
+            except RuntimeError:
+                self.out.stats['fault.constant_flag_watcher_raised_on_exit'] += 1
+            finally:
+                o.param.unwatch(h)
+            for q in ('k', 'r'):
+                if q in self.visible(self.im[i]['c']):
+                    self.ensure_copy(i, q)
         elif k == 'ecblock' and has_inst:
             # a complete edit_constant block on an instance (entered internally by reference syncing too): no effect on any namespace
             with param.parameterized.edit_constant(self.insts[i]):
